@@ -54,6 +54,12 @@ def run(pid, kind, tier, seed, what):
             else:
                 chk.violation("a return bit is not mapped to a qubit", dict(source=r["src"], config=cfg, unmapped=r["unmapped"]))
             continue
+        if kind == "c06" and r.get("out_on_input"):
+            if (r["src"], "alias") not in seen_src:
+                seen_src.add((r["src"], "alias"))
+                chk.violation("the output qubit of a predicate is one of its argument qubits (no separate |y> register: not an xor-oracle)",
+                              dict(source=r["src"], config=cfg, return_bits_on_input_qubits=r["out_on_input"], qubit_map=r["obs"]["qubit_map"]))
+            continue
         if "verdict" not in r:
             skipped += 1
             if r.get("ser_error"):
